@@ -88,6 +88,7 @@ type RecWriter struct {
 	Writes     int
 	FailAt     int
 	Short      bool
+	Transient  bool // only the write with index FailAt fails; later writes succeed again
 	Yield      bool
 	Delay      time.Duration
 	Failed     int
@@ -124,7 +125,7 @@ func (w *RecWriter) Write(p []byte) (int, error) {
 	w.mu.Lock()
 	defer w.mu.Unlock()
 	w.inflight--
-	if w.FailAt >= 0 && i >= w.FailAt {
+	if w.FailAt >= 0 && (i == w.FailAt || (i > w.FailAt && !w.Transient)) {
 		w.Failed++
 		if w.Short && i == w.FailAt && len(p) > 1 {
 			n := len(p) / 2
